@@ -8,6 +8,7 @@ Workloads: (a) ill-defined by construction, one class per defect; (b) trees with
 (c) DAG sharing by identity and by equal copy (also the same definition reached through different classes).
 """
 import random
+import zlib
 
 import puan
 import puan.logic.plog as pg
@@ -25,11 +26,11 @@ RULE = ("cases: (a) ill-defined models by construction: self reference, cycles o
         ' Classes added after the seeded rounds: sub-proposition next to a leaf with the same id, generated-id collisions, cross-branch cycles, same id and same child ids with differences one level further down.')
 BUDGET = {"quick": (12, 1500, 90), "thorough": (16, 4000, 1200)}
 ILL = ["self-ref", "cycle", "cycle-cross-branch", "deep-ambivalence", "compound-sign-symmetric", "dup-child-by-negation", "dup-child", "dup-child-ref-leaf", "generated-id-collision", "compound-value-twin", "leaf-bounds", "leaf-bounds-twin", "compound-sign", "compound-value",
-       "compound-children", "compound-children-twin", "leaf-vs-compound", "compound-bounds", "compound-compound-child", "cc-default-vs-plain"]
+       "compound-children", "compound-children-twin", "leaf-vs-compound", "compound-bounds", "compound-compound-child", "cc-default-vs-plain", "childless-vs-other"]
 PYTEST = True     # thorough tier also runs the repository's own tests under these monitors
 MANDATORY = ["judged:accepted=>well-defined", "judged:tree=>accepted", "judged:sharing=>accepted", "contract:AtLeast.errors"] + \
             ["count:ill:" + c for c in ILL] + ["count:ill-rejected", "count:class:tree", "count:class:share-identity",
-                                               "count:class:share-copy", "count:class:share-other-class", "count:class:share-negated-copy", "count:class:edit-after-validation"]
+                                               "count:class:share-copy", "count:class:share-other-class", "count:class:share-negated-copy", "count:class:edit-after-validation", "count:result-list-edited-then-validated-again"]
 
 
 def is_tree(model):
@@ -252,6 +253,18 @@ def build_ill(cls, rng):
             grp = ccm.Xor(*mem, default=[d], variable="X")          # its at-least-one half keeps the generated id of Any(*mem)
             plain = pg.Any(*mem)
         return pg.All(pg.Any(grp, "p", variable="B"), pg.Any(plain, "q", variable="C"), variable="A")
+    if cls == "childless-vs-other":
+        # a sub-proposition without sub-propositions of its own is a compound one all the same: another definition of its id elsewhere is ambivalent
+        first = rng.choice([lambda: pg.AtLeast(0, [], variable="S"), lambda: pg.All(variable="S"), lambda: pg.Any(variable="S"), lambda: pg.AtMost(0, [], variable="S")])()
+        cands = [lambda: puan.variable("S", rng.choice([(0, 5), (1, 1), (-1, 1)])), lambda: pg.Any("x", "y", variable="S"), lambda: pg.AtLeast(3, ["x", "y", "z"], variable="S")]
+        if (int(first.sign), int(first.value)) != (1, 1):
+            cands.append(lambda: pg.AtLeast(1, [], variable="S"))
+        if (int(first.sign), int(first.value)) != (-1, 0):
+            cands.append(lambda: pg.AtLeast(0, [], variable="S"))
+        other = rng.choice(cands)()
+        pair = [pg.Any(first, "p", variable="B"), pg.Any(other, "q", variable="C")]
+        rng.shuffle(pair)
+        return pg.All(*pair, *rng.sample([pg.Any("u", "v"), puan.variable("w"), pg.All("r1", "r2", variable="R")], rng.randint(0, 2)), variable="A")
     if cls == "leaf-vs-compound":
         b = rng.choice([(0, 3), (1, 1), (-1, 1), (0, 0)])
         return pg.All(pg.Any("x", "y", variable="S"), pg.Any(puan.variable("S", b), "q", variable="C"), variable="A")
@@ -281,12 +294,26 @@ def gen_case(rng, tier, ctx, i):
     return {"class": rng.choice(["share-other-class", "share-other-class", "share-negated-copy", "edit-after-validation"]), "seed": rng.getrandbits(32)}
 
 
+def validate_twice(ctx, m, seed):
+    """the list that errors() hands out is the caller's: whatever the caller does with it (emptying it while working through it, collecting
+    the findings of other models in it), the next validation of the model is again about the model"""
+    got = ctx.call("errors", m.errors)
+    if seed % 3 == 0 and isinstance(got, list):
+        if got:
+            while got:
+                got.pop()
+        else:
+            got += ["finding about another model"]
+        ctx.count("count:result-list-edited-then-validated-again")
+        ctx.call("errors", m.errors)
+
+
 def run_case(case, ctx):
     cls = case["class"]
     if cls in ILL:
         m = build_ill(cls, random.Random(case["seed"]))
         ctx.count("count:ill:" + cls)
-        ctx.call("errors", m.errors)
+        validate_twice(ctx, m, case["seed"])
         return
     if cls == "edit-after-validation":
         # one object: validated, then changed in place at least one level below the root's own child list so that it is ill-defined,
@@ -347,4 +374,4 @@ def run_case(case, ctx):
             ctx.count("count:class:share-identity")
         else:
             ctx.count("count:class:share-copy")
-    ctx.call("errors", m.errors)
+    validate_twice(ctx, m, zlib.crc32(repr(case["recipe"]).encode()))
